@@ -11,10 +11,27 @@ Definition clause_tag (pfx : string) (n : Z) : sexp := S (str pfx ++ itoa n).
 
 (* every connection of the scenario is judged by the reply class of what the panel sent first
    on THAT connection: flag and error text given to that onconnect, bytes that peer received *)
+(* other traffic expected on connection i besides the negotiation bytes: what the onconnect
+   callback wrote and (connection 0) the lists queued by the single submitter; the negotiation
+   clauses are judged on what the panel received BEFORE it *)
+Definition other_traffic (s : scn) (i : nat) (bin : bool) : bytes :=
+  s_cbwrite s ++ match i, s_subs s with
+                 | O, sub0 :: _ => written_for s bin sub0
+                 | _, _ => []
+                 end.
+
+Definition before_traffic (recv traffic : bytes) : bytes :=
+  match split_tr (zlen recv - zlen traffic) recv [] with
+  | Some (pre, post) => if bytes_eqb post traffic then pre else recv
+  | None => recv
+  end.
+
 Fixpoint c12_conns (s : scn) (i : nat) (gs : list grp) (peers : list (Z * bytes * Z * Z)) : list Z :=
   match gs, peers with
   | g :: gs', (_, recv, _, _) :: ps' =>
-    match c12_judge true (classify_reply (nth_reply s i)) (snd (g_con g)) (snd (fst (g_con g))) recv with
+    let bin := snd (g_con g) in
+    match c12_judge true (classify_reply (nth_reply s i)) bin (snd (fst (g_con g)))
+                    (before_traffic recv (other_traffic s i bin)) with
     | [] => c12_conns s (Datatypes.S i) gs' ps'
     | n :: _ => [n + 100 * Z.of_nat i]
     end
@@ -41,7 +58,8 @@ Definition judge (s : scn) : sexp :=
   match c12_fails s with
   | n :: _ => L [sym "specfail"; clause_tag (if s_sens s then "timing-c12-clause" else "c12-clause") n; L []]
   | [] =>
-    match (if s_det s then compare_detector s else compare_client s (fun _ => None)) with
+    match (if s_det s then compare_detector s
+           else compare_client s (fun i => if i =? 0 then match s_subs s, obs_groups (s_obs s) with sub0 :: _, g :: _ => Some (written_for s (snd (g_con g)) sub0) | _, _ => None end else None)) with
     | Some v => v
     | None => v_ok true
     end
